@@ -714,6 +714,16 @@ class JacobianAssembly:
         n_residuals = self.compute_dimension(sorted_couplings_minimal)
         if residual_variables:
             n_residuals += self.compute_dimension(residual_variables.keys())
+        if not couplings_and_res:
+            # No coupling is involved: the total derivatives are the partial ones.
+            return self.split_jac(
+                {
+                    fun: self.assemble_jacobian([fun], variables).toarray()
+                    for fun in functions
+                },
+                variables,
+            )
+
         # compute the partial derivatives of the residuals
         dres_dx = self.assemble_jacobian(couplings_and_res, variables, is_residual=True)
 
